@@ -83,6 +83,19 @@ def selfdestruct_file(b, kind, vis, mod, kill, guard, shape, where='contract'):
     other = fam.fn_def(b, [b.expr_stmt(b.call(b.var('require'), [b.bin('Equal', sender(b), b.var('owner'))]))], name='other')
     if where == 'contract':
         parts = [fam.contract_with(b, [other, fd])]
+    elif where in ('after_protected_kill', 'before_protected_kill', 'between_protected_kills', 'after_sender_checked_kill'):
+        # several functions with a selfdestruct in ONE contract: the verdict on each call is the verdict it has alone, whatever stands
+        # before or behind it (a protected one first, last, on both sides)
+        def prot(name, by_sender=False):
+            body = [b.expr_stmt(b.call(b.var('selfdestruct'), [b.call(b.ty('Payable'), [b.var('owner')])]))]
+            if by_sender:
+                body.insert(0, b.expr_stmt(b.call(b.var('require'), [b.bin('Equal', sender(b), b.var('owner'))])))
+            attrs = [b.fattr('visibility', 'external')] + ([] if by_sender else [b.fattr('modifier', 'onlyOwner', None)])
+            return b.function('Function', name, [], attrs, b.block(body))
+        members = {'after_protected_kill': lambda: [prot('closeA'), fd], 'before_protected_kill': lambda: [fd, prot('closeA')],
+                   'between_protected_kills': lambda: [prot('closeA'), fd, prot('closeB')],
+                   'after_sender_checked_kill': lambda: [prot('closeA', True), other, fd]}[where]()
+        parts = [fam.contract_with(b, members)]
     elif where == 'library':
         parts = [fam.contract_with(b, [fd], kind='Library', name='L')]
     else:
@@ -177,6 +190,11 @@ def body(chk):
     for kill, guard, shape in itertools.product(KILLS, GUARDS, SHAPES[1:]):
         for vis in ('public', 'internal', None):
             combos.append(('Function', vis, None, kill, guard, shape, 'contract'))
+    several = []
+    for where in ('after_protected_kill', 'before_protected_kill', 'between_protected_kills', 'after_sender_checked_kill'):
+        for kill, guard, vis, mod in itertools.product(list(KILLS)[:4], ('none', 'require(msg.sender == owner)', 'log(x)'), ('public', 'external', 'internal'), (None, 'onlyOwner', 'whenNotPaused')):
+            several.append(('Function', vis, mod, kill, guard, 'guard_then_kill', where))
+    combos += several
     for kill, guard in itertools.product(list(KILLS)[:3], list(GUARDS)[:3]):
         combos.append(('Function', 'public', None, kill, guard, 'guard_then_kill', 'library'))
         combos.append(('Function', None, None, kill, guard, 'guard_then_kill', 'free'))
@@ -185,7 +203,9 @@ def body(chk):
         keep = [c for c in combos if c[0] == 'Function' and c[1] in ('public', 'external') and c[2] in (None, 'onlyOwner', 'onlyOwner()', 'onlyRole(ADMIN)')]
         keep = [c for c in combos if c[0] == 'Function' and c[1] in ('public', 'external') and c[2] and ('.' in c[2] or '+' in c[2]) and c[4] == 'none'][:60] + keep
         two = [c for c in combos if c[5] in SHAPES[4:] and c[1] == 'public']
-        combos = keep[:250] + combos[:400] + two[:90]
+        sev = [c for c in several if c[1] != 'internal' and c[2] != 'onlyOwner']
+        chk.rng.shuffle(sev)
+        combos = keep[:250] + combos[:400] + two[:90] + sev[:60]
     for k in range(0, len(combos), 80):
         items.append(('selfdestruct', combos[k:k + 80]))
     pragmas = [(i, v, p) for i in ('solidity', 'experimental', 'abicoder')
